@@ -451,6 +451,7 @@ func init() {
 	g("Implies", func(fr *frame, a []value) value { return boolOr([]value{boolNot(a[0]), a[1]}) })
 	g("Now", func(fr *frame, a []value) value { return E.now() })
 	g("Advance", func(fr *frame, a []value) value {
+		E.now() // the clock origin is drawn first (same order as the native runtime)
 		d := E.fresh(a[0].(string), 64)
 		E.api = append(E.api, APIEvent{Kind: "adv", Name: a[0].(string), Bits: 64, terms: []string{d.name}})
 		E.Assume(E.symBinop(token.GEQ, tInt64, d, int64(0)))
@@ -467,6 +468,19 @@ func init() {
 	g("RunPending", func(fr *frame, a []value) value { E.drain(); return nil })
 	g("Yield", func(fr *frame, a []value) value { E.yield(true); return nil })
 	g("Unfinished", func(fr *frame, a []value) value { return E.blockedGoroutines() })
+	g("NewTimerChan", func(fr *frame, a []value) value {
+		return &xchan{timer: true, ctxDone: true, never: E.Params["TIMERS_FIRE"] != 1}
+	})
+	g("ChanClosed", func(fr *frame, a []value) value { return a[0].(*xchan).closed })
+	redirect := func(name string) externalFn {
+		return func(fr *frame, a []value) value {
+			pkg := fr.i.prog.ImportedPackage("github.com/thushan/olla/internal/zzverif/gosym")
+			return call(fr.i, fr, token.NoPos, pkg.Func(name), a)
+		}
+	}
+	ex["context.WithCancel"] = redirect("ModelWithCancel")
+	ex["context.WithTimeout"] = redirect("ModelWithTimeout")
+	ex["context.WithDeadline"] = redirect("ModelWithDeadline")
 	g("EventCount", func(fr *frame, a []value) value { return len(E.events) })
 	g("EventName", func(fr *frame, a []value) value { return E.events[a[0].(int)][0] })
 	g("EventData", func(fr *frame, a []value) value { return E.events[a[0].(int)][1] })
